@@ -167,7 +167,12 @@ namespace occa {
             continue;
           }
 
-          args.push_back(tokenContext.parseExpression(smntContext, parser));
+          exprNode *arg = tokenContext.parseExpression(smntContext, parser);
+          // NULL if the expression could not be parsed (the error has been printed)
+          success &= !!arg;
+          if (arg) {
+            args.push_back(arg);
+          }
 
           if (!success) {
             freeExprNodeVector(args);
